@@ -74,6 +74,7 @@ int main(int argc, char **argv) {
   std::vector<std::string> names = {"oct32", "oct64", "oct77", "rsa_2048", "ec_p256", "ec_p384", "ec_p521", "ec_k256", "ed25519", "ed448"};
   if (a.thorough()) { names.push_back("rsa_3072"); names.push_back("rsa_4096"); names.push_back("oct48"); }
   for (auto &n : names) KEYS.push_back(&POOL.get(n));
+  static KeySpec rsa2050 = load_fixture("rsa_2050"); KEYS.push_back(&rsa2050);   // modulus length not a multiple of 8 bits
   // (key, alg) cells
   std::vector<std::pair<int, int>> cells;
   for (size_t ki = 0; ki < KEYS.size(); ki++) for (int ai = 0; ai < NALGS; ai++) if (strength_ok(*KEYS[ki], ALGS[ai].alg)) cells.push_back({(int)ki, ai});
